@@ -35,10 +35,23 @@ func readMutants(path string) ([]mutant, error) {
 		if line == "" || strings.HasPrefix(line, "#") {
 			continue
 		}
-		p := strings.Split(line, " || ")
-		if len(p) != 5 {
+		// five fields; the replacement may itself contain " || " (Go source), so split the first three separators from
+		// the left and the last one from the right
+		var p []string
+		rest := line
+		for i := 0; i < 3; i++ {
+			j := strings.Index(rest, " || ")
+			if j < 0 {
+				return nil, fmt.Errorf("bad mutant line: %q", line)
+			}
+			p = append(p, rest[:j])
+			rest = rest[j+4:]
+		}
+		j := strings.LastIndex(rest, " || ")
+		if j < 0 {
 			return nil, fmt.Errorf("bad mutant line: %q", line)
 		}
+		p = append(p, rest[:j], rest[j+4:])
 		unesc := func(s string) string { return strings.ReplaceAll(strings.ReplaceAll(s, `\n`, "\n"), `\t`, "\t") }
 		out = append(out, mutant{strings.TrimSpace(p[0]), strings.TrimSpace(p[1]), strings.TrimSpace(p[2]), unesc(strings.TrimSpace(p[3])), strings.TrimSpace(p[4])})
 	}
